@@ -42,7 +42,7 @@ def run(F, ctx):
     gen = [c for c in f.normal_calls() if c.resolved == GEN]
     if not gen:
         raise CheckError("get_or_create_hyperplanes no longer calls generate_hyperplanes")
-    key_l = f.local_named("key")
+    key_l = f.need_local("key")
     ok = key_l is not None
     key_ops = None
     if ok:
